@@ -1,0 +1,15 @@
+//! Verification hooks. Compiled only with `--cfg ironcalc_verif`; re-exports and thin wrappers
+//! that make private items reachable from an external harness. No behaviour change.
+
+pub use crate::functions::Function;
+
+use crate::locale::Locale;
+
+/// `formatter::format::parse_formatted_number` (crate-private)
+pub fn parse_formatted_number(
+    original: &str,
+    currencies: &[&str],
+    locale: &Locale,
+) -> Result<(f64, Option<String>), String> {
+    crate::formatter::format::parse_formatted_number(original, currencies, locale)
+}
